@@ -1188,9 +1188,15 @@ class Literal(Variable[T]):
         original_data = data
         data = [data]
         if not type_:
-            original_data_lst = make_list(original_data)
-            first_value = original_data_lst[0] if len(original_data_lst) > 0 else None
-            type_ = type(first_value) if first_value else None
+            # building a query does not consume or ask the data: only a collection that can be looked at without
+            # side effects is looked at, and the first value is not asked for its truth value
+            if isinstance(original_data, (list, tuple, set, frozenset)):
+                first_value = next(iter(original_data), None)
+            elif is_iterable(original_data):
+                first_value = None
+            else:
+                first_value = original_data
+            type_ = type(first_value) if first_value is not None else None
         if name is None:
             if type_:
                 name = type_.__name__
